@@ -99,8 +99,17 @@ fn run(ctx: &Ctx) -> Run {
             return r;
         }
     };
-    let llines: Vec<&str> = lookups.lines().filter(|l| l.starts_with("L ")).collect();
-    let glines: Vec<&str> = geometry.lines().filter(|l| l.starts_with("G ")).collect();
+    // thorough tier: a second, much larger table recorded at run time from the reference release rebuilt out of /repo's
+    // history (see /verif/check); absent in the quick tier
+    let extra_dir = std::env::var("VERIF_GOLDEN_EXTRA").ok();
+    let (extra_l, extra_g) = match &extra_dir {
+        Some(d) => (std::fs::read_to_string(format!("{d}/lookups.tsv")).unwrap_or_default(), std::fs::read_to_string(format!("{d}/geometry.tsv")).unwrap_or_default()),
+        None => (String::new(), String::new()),
+    };
+    let frozen_l = lookups.lines().filter(|l| l.starts_with("L ")).count();
+    let frozen_g = geometry.lines().filter(|l| l.starts_with("G ")).count();
+    let llines: Vec<&str> = lookups.lines().chain(extra_l.lines()).filter(|l| l.starts_with("L ")).collect();
+    let glines: Vec<&str> = geometry.lines().chain(extra_g.lines()).filter(|l| l.starts_with("G ")).collect();
     let threads = ctx.threads;
     let tie_in = ctx.tier == Tier::Thorough;
     let mut out = parallel(threads, |w, run| {
@@ -143,8 +152,13 @@ fn run(ctx: &Ctx) -> Run {
             }
         }
     }
-    out.countn("golden.lookup_records", llines.len() as u64);
-    out.countn("golden.geometry_records", glines.len() as u64);
+    out.countn("golden.frozen_lookup_records", frozen_l as u64);
+    out.countn("golden.frozen_geometry_records", frozen_g as u64);
+    out.countn("golden.runtime_reference_lookup_records", (llines.len() - frozen_l) as u64);
+    out.countn("golden.runtime_reference_geometry_records", (glines.len() - frozen_g) as u64);
+    if extra_dir.is_some() && llines.len() == frozen_l {
+        out.inconclusive("the run-time reference table is empty".to_string());
+    }
     out.note("exhaustive over the frozen table: every record was replayed".to_string());
     out
 }
